@@ -3,7 +3,7 @@ import bridge_common as bc
 
 ID = "C01"
 PROPERTIES_V = ["theories/Properties/C01.v"]
-MAKE_TARGETS = ["theories/Properties/C01.vo", "theories/Proofs/GenAgreeTree.vo", "theories/Model/BridgeCases.vo"]
+MAKE_TARGETS = ["theories/Properties/C01.vo", "theories/Proofs/GenAgreeTree.vo", "theories/Proofs/AbiProofs.vo", "theories/Model/BridgeCases.vo"]
 HARNESS = "bridge"
 HARNESS_ARGS = ["-prop", "c01", "-par", "4"]
 CASES_IMPORTS = bc.IMPORTS
